@@ -83,6 +83,7 @@ type OrderFacts struct{ Pairs, SplitPairs int }
 
 // CheckOrder is the C16 oracle on one cycle.
 func CheckOrder(w *World, rec *CycleRecord) ([]Finding, OrderFacts) {
+	w = rec.Effective(w)
 	var out []Finding
 	var facts OrderFacts
 	wls := w.Workloads()
